@@ -182,16 +182,8 @@ func getIndex(c *Ctx) {
 		}
 		got := P.PathCond(q.fn, nil, r, keepForms(idx, has))
 		good := len(got) > 0
-		nonneg := lit(idx, an.SZero|an.SPos)
-		for _, cj := range got {
-			s, okf := cj[nonneg.Form]
-			if !okf || s&^nonneg.Set != 0 {
-				good = false
-			}
-			h, okh := cj[lit(has, an.SAny).Form]
-			if !okh || h != an.SPos {
-				good = false
-			}
+		if good {
+			good, _ = an.ImpliesDNF(got, an.DNF{conj(lit(idx, an.SZero|an.SPos), lit(has, an.SPos))})
 		}
 		q.add("COND", "nil-error returns require a known consumer and index >= 0", good,
 			pickS(good, "every path to this return established has(consumers[c]) and index >= 0", "a return with a nil error is reachable with a negative index or an unknown consumer: "+got.String()), r)
